@@ -435,6 +435,10 @@ class Machine:
                         return self.run(f, [])
                 # a promoted constant of a closure / nested item inside an impl method: the use site names the type (Type::method::{closure#0}::promoted[k]),
                 # the dump names the impl block (<impl at file:line>::method::{closure#0}::promoted[k]); match on method path + suffix when unique
+                # (generic arguments at the use site - method::<impl Trait>::{closure#0} - are not part of the dump's name)
+                prev = None
+                while prev != base:
+                    prev, base = base, re.sub(r"::<[^<>]*>", "", base)
                 tail = "::".join(base.split("::")[-2:]) if "{closure" in base.split("::")[-1] else base.split("::")[-1]
                 cands = [f for name, f in self.funcs.items() if name.endswith("::" + tail + "::promoted[" + suffix) or name == tail + "::promoted[" + suffix]
                 if len(cands) == 1:
@@ -525,7 +529,14 @@ class Machine:
         if k == "aggregate":
             return self.aggregate(loc, rv)
         if k == "repeat":
-            raise Unsupported("array repeat")
+            # [operand; N] with a literal length
+            mlen = re.match(r"^(?:const )?(\d+)(?:_usize)?$", rv[2])
+            if not mlen or int(mlen.group(1)) > 4096:
+                raise Unsupported("array repeat with length %s" % rv[2])
+            v = self.operand(loc, rv[1])
+            if not isinstance(v, (bool, int)):
+                raise Unsupported("array repeat of %r" % (v,))
+            return [v] * int(mlen.group(1))
         raise Unsupported("rvalue %r" % (rv,))
 
     def aggregate(self, loc, rv):
